@@ -123,6 +123,24 @@ Theorem C08_required_int : forall uint64 d c chk nullable val r,
 Proof. exact required_int. Qed.
 Print Assumptions C08_required_int.
 
+(* assignment obj.attr = v (Attribute.__set__, scanned from source on every run): the value is validated on EVERY assignment,
+   whatever the object currently holds (an equal value of another type, a value written past the ORM that violates the
+   declaration, ...); for an int attribute: accepted iff within the declared bounds, in every prior state *)
+Theorem C08_assignment_validates : forall V (validate : V -> result V) held v, attr_set_outcome validate held v = validate v.
+Proof. exact assign_validates. Qed.
+Print Assumptions C08_assignment_validates.
+
+Theorem C08_assignment_state_independent : forall V (validate : V -> result V) held held' v,
+  attr_set_outcome validate held v = attr_set_outcome validate held' v.
+Proof. exact assign_state_independent. Qed.
+Print Assumptions C08_assignment_state_independent.
+
+Theorem C08_assignment_int : forall uint64 d c held v,
+  init_of uint64 d = Ok c ->
+  (attr_set_outcome (int_validate (ic_min c) (ic_max c)) held v = Ok v <-> in_bounds d v).
+Proof. exact assign_int. Qed.
+Print Assumptions C08_assignment_int.
+
 (* non-vacuity: size=16, min=0, max=300 is an accepted declaration, accepts 0 and 300, rejects -1 and 301 *)
 Example C08_nonvacuous :
   exists c, init_of true (mk_int_decl (Some 16) (Some false) (Some 0) (Some 300)) = Ok c
